@@ -23,7 +23,9 @@ def _worker(args):
     try:
         srvprops._init_worker()
         res = evocase.run_case(case, wd)
-        return evocase.analyse(case, res), evocase.step_gallina(case, res), evocase.lifecycle_has_readd(res), None
+        mappedB = {d["hermesType"] for d in case["cdmB"].values()}
+        pending_unmapped = any(q["remote"] is not None and q["remote"][1] not in mappedB for q in res["snapA"]["queue"])
+        return evocase.analyse(case, res), evocase.step_gallina(case, res), (evocase.lifecycle_has_readd(res), pending_unmapped), None
     except Exception:
         return None, None, None, traceback.format_exc()
 
@@ -41,7 +43,7 @@ def run(ctx):
                                 typ="ecase", checker="check_ecases", shard=40)
     violations, corr = [], []
     hist = {"edits": {}, "cases_with_failures": 0, "cases_without_edit": 0}
-    for i, (c, (viol, g, readd, _)) in enumerate(zip(cases, res)):
+    for i, (c, (viol, g, (readd, pending_unmapped), _)) in enumerate(zip(cases, res)):
         for e in c["edits"]:
             hist["edits"][e[0]] = hist["edits"].get(e[0], 0) + 1
         hist["cases_with_failures"] += c["p_fail"] > 0
@@ -55,7 +57,9 @@ def run(ctx):
             # F5 (re-add while events of the earlier life are queued) needs handler failures and a re-add on the bus
             f5 = c["p_fail"] > 0 and readd and set(kinds) <= {"local-data-differ-from-fresh-deployment", "target-differs-from-fresh-deployment",
                                                             "queue-not-drained", "client-raises"}
-            violations.append({"sig": "F5-readd-while-removal-queued" if f5 else None,
+            f27 = pending_unmapped and set(kinds) <= {"local-data-differ-from-fresh-deployment", "target-differs-from-fresh-deployment",
+                                                        "queue-not-drained", "client-raises"}
+            violations.append({"sig": "F27-type-unmapped-with-pending-queue-entries" if f27 else "F5-readd-while-removal-queued" if f5 else None,
                                "what": "; ".join(WHAT.get(k, k) for k in kinds) + f" (case {i}, edits {c['edits']})", **rep})
         elif not c_ok:
             corr.append({"what": f"corr_schema_step: events sent ahead of the new schema != schema_step on case {i} (edits {c['edits']})", **rep})
@@ -72,7 +76,7 @@ def run(ctx):
 
 def replay(obj):
     case = common.dec(obj["case"])
-    viol, g, readd, e = _worker((case, common.workdir("replay") + "/e"))
+    viol, g, flags, e = _worker((case, common.workdir("replay") + "/e"))
     if e:
         print(e)
         return 2
